@@ -15,7 +15,7 @@ ID = "C07"
 RULE = (
     "F: every call of the five functions (and an unknown one) with 0..3 arguments drawn from 9 argument kinds (literal, "
     "singular query, two non-singular queries, value-typed call, logical-typed call, comparison, logical expression, nested "
-    "ill-typed call), used as a test and as either comparison operand; O: every comparison over 8 operand kinds; each basic "
+    "ill-typed call), used as a test and as either comparison operand; every literal kind (null, true, false, float, negative, '', string, 0) at every argument position of 1- and 2-argument calls; O: every comparison over 8 operand kinds; each basic "
     "expression placed at every position (top, under !, either side of && and ||, in parentheses, inside a nested filter); "
     "depth-2 nestings of calls (thorough: 3). S: every spelling (both quote styles, dot/bracket forms, one blank at every ABNF S position) of a sample of the well-typed expressions at three positions must compile; L: index and slice bounds at limit-1, limit, limit+1 (both signs) under the "
     "default environment, one narrowed to +-10 and two with asymmetric limits (-3..10, -10..3); leading zeros; list shapes; uncompared literals at every position. "
@@ -75,6 +75,18 @@ def basics(tier):
         out.append(c)                                   # as a test
         out.append(("cmp", "==", c, LIT))               # as left operand
         out.append(("cmp", "<", LITS, c))               # as right operand
+    # every literal kind at every argument position (the argument parser dispatches on the token kind)
+    for f in FUNCS[:5]:
+        for v in (None, True, False, 1.5, -1, "", "a", 0):
+            l = ("lit", v)
+            forms = [[l]]
+            for other in (SQ, LITS, NSQ):
+                forms += [[l, other], [other, l]]
+            for args in forms:
+                c = ("call", f, args)
+                out.append(c)
+                out.append(("cmp", "==", c, LIT))
+                out.append(("cmp", ">=", ("lit", None), c))
     operands = [LIT, LITS, ("lit", None), ("lit", True), SQ, SQ2, NSQ, NSQ2, NSQ3, NSQ4, VCALL, VCALL2, VCALL3, LCALL, BADCALL]
     for op in ("==", "!=", "<", "<=", ">", ">="):
         for a in operands:
